@@ -26,7 +26,9 @@ func init() {
 		Work:    c07Work,
 		Aux:     raceAux("C07"),
 		Sub:     map[string]func([]string) int{"racepass-C07": racePassSub(c07Scenarios)},
-		Post:    func(a *mc.Agg) []string { return needDims(a, "scenario:recursive", "scenario:mutual", "scenario:nested", "scenario:intern", "scenario:pool", "scenario:failing-build", "threads:2", "threads:3") },
+		Post: func(a *mc.Agg) []string {
+			return needDims(a, "scenario:recursive", "scenario:mutual", "scenario:nested", "scenario:intern", "scenario:pool", "scenario:failing-build", "threads:2", "threads:3")
+		},
 	})
 }
 
